@@ -27,7 +27,7 @@ def requirements(tier):
     return {"min_counters": {"first_hour_twin_comparisons": 60 * k, "slots_compared_with_twin": 3000 * k, "interior_window_checks": 40 * k,
                              "pairs_checked": 1500 * k, "outside_or_naive_refused": 30 * k, "inside_dates_accepted": 25 * k},
             "required_classes": ["multi_timezone", "job_shared_by_2_patterns", "change_link", "change_list", "change_num", "first_other_tz",
-                                 "dst_switch_inside_period", "second_simulation_on_the_system"]}
+                                 "dst_switch_inside_period", "second_simulation_on_the_system", "non_whole_hour_offset_zone"]}
 
 
 def run_case(case):
@@ -50,6 +50,14 @@ def run_case(case):
                 hs = o_["params"]["hourly_usage_journey_starts"]
                 ln = max(len(hs[1]), 24)
                 o_["params"]["hourly_usage_journey_starts"] = ["h", [rnd.choice(gen.START_VALUES[2:]) for _ in range(ln)], start_, "dimensionless"]
+    half_hour_case = case["idx"] % 9 == 2 and spec0 is None
+    if half_hour_case:
+        # every pattern in a zone whose offset is not a whole number of hours: the UTC hours of the model start at xx:30 / xx:15
+        spec0 = gen.rand_spec(rnd, case["tier"], jobless_ok=False)
+        zone = rnd.choice(["Asia/Kolkata", "Asia/Kathmandu", "Australia/Adelaide"])
+        for n_, o_ in spec0["objects"].items():
+            if o_["cls"] == "Country":
+                o_["params"]["timezone"] = ["tz", zone]
     h = Hist(rnd, case["tier"], spec=spec0)
     C = {k: 0 for k in ("first_hour_twin_comparisons", "slots_compared_with_twin", "interior_window_checks", "pairs_checked",
                         "outside_or_naive_refused", "sim_refused_valid_change", "twin_refused", "build_failed", "hourly_values_window_checked",
@@ -81,7 +89,27 @@ def run_case(case):
         first_ = min(h.objs[u].utc_hourly_usage_journey_starts.value.index.min() for u in ups_).to_pydatetime()
         dk = "interior_all_active"; classes.add("dst_switch_inside_period")
         dst_date = first_ + timedelta(hours=rnd.randint(9, 20))
-    if case["idx"] % 7 == 3 and not dst_case:
+    if half_hour_case and not h.build_error:
+        ups_ = h.spec["objects"][h.spec["system"]]["params"]["usage_patterns"][1]
+        up_ = rnd.choice(ups_)
+        devs = [d for d, o_ in h.spec["objects"].items() if o_["cls"] == "Device"]
+        steps_ = h.spec["objects"][h.spec["objects"][up_]["params"]["usage_journey"][1]]["params"]["uj_steps"][1]
+        changes = [rnd.choice([{"obj": up_, "attr": "devices", "value": ["refs", rnd.sample(devs, rnd.randint(1, len(devs)))]},
+                               {"obj": h.spec["objects"][up_]["params"]["usage_journey"][1], "attr": "uj_steps", "value": ["refs", list(reversed(steps_)) + steps_[:1]]}])]
+        dk = rnd.choice(["first", "interior_all_active"]); classes.add("non_whole_hour_offset_zone")
+        # the date is derived from the INPUTS (local start converted with pytz by the harness), not read from the library's UTC series
+        from datetime import datetime as _dt, timedelta
+        tz_ = E.pytz.timezone(zone)
+        firsts_ = [tz_.localize(_dt.fromisoformat(h.spec["objects"][u]["params"]["hourly_usage_journey_starts"][2])).astimezone(timezone.utc) for u in ups_]
+        lens_ = [len(h.spec["objects"][u]["params"]["hourly_usage_journey_starts"][1]) for u in ups_]
+        if dk == "first":
+            half_date = min(firsts_)
+        else:
+            lo = max(firsts_); hi = min(f + timedelta(hours=n - 1) for f, n in zip(firsts_, lens_))
+            half_date = lo + timedelta(hours=rnd.randint(1, max(1, int((hi - lo).total_seconds() // 3600) - 1))) if hi > lo + timedelta(hours=2) else min(firsts_)
+            if half_date == min(firsts_):
+                dk = "first"
+    if case["idx"] % 7 == 3 and not dst_case and not half_hour_case:
         # a date that certainly belongs to the modelled period: the first hour of a pattern whose (unchanged) starts feed the
         # changed input's descendants - numeric change on a job of that pattern
         ups = [u for u in h.spec["objects"][h.spec["system"]]["params"]["usage_patterns"][1] if gen.jobs_of_up(h.spec, u)]
@@ -103,6 +131,8 @@ def run_case(case):
         date = dep_date
     elif dst_case and not h.build_error:
         date = dst_date
+    elif half_hour_case and not h.build_error:
+        date = half_date
     else:
         date = sim.pick_date(rnd, h.objs, h.spec, dk)
         if date is None:
@@ -178,7 +208,7 @@ def run_case(case):
                     V.append({"kind": "first-hour simulation differs from really making the change", "n_slots": len(d),
                               "slots": observe.explain_diff(snap_sim, snap_real, d), **ctx})
                 nontrivial = nontrivial and bool(observe.diff(snap0, snap_sim, rtol=0))
-    elif dk == "interior_all_active" and not any(c["value"][0] == "h" or c["attr"] in ("country", "timezone") for c in changes):
+    if not V and dk in ("interior_all_active", "first") and not any(c["value"][0] == "h" or c["attr"] in ("country", "timezone") for c in changes):
         # (a change list that itself supplies a new hourly series, or moves a pattern to another time zone - which re-times its
         # local hours -, brings its own hours: not covered by the window claim)
         C["interior_window_checks"] += 1
